@@ -18,7 +18,7 @@ BOUNDS = {
     "quick": {"resolution": "6 periodic x 5 boundary x 4 fill_value constructor spellings x 7 boundary x 4 fill_value call spellings, 2 axes, N=2, 2 width sets",
               "geometry": "N in {2,3}, every (lo,hi) in {0..N}^2 on one axis with 3 fixed widths on the other, both dim orders, 3 rules, data on center/left/outer/right"},
     "thorough": {"resolution": "same spellings, N in {2,3}, 4 width sets, both dim orders",
-                 "geometry": "N in {2,3,4}, every (lo,hi) in {0..N}^2 on both axes (N<=3) / one axis (N=4)"},
+                 "geometry": "N in {2,3,4,5}, every (lo,hi) in {0..N}^2 on both axes (N<=3) / one axis (N=4,5)"},
 }
 OUTSIDE = ["widths > N", "3 axes", "periodic given as a partial dict (statement does not fix the unnamed axes)", "float rounding"]
 ASSUMPTIONS = ["input data finite"]
@@ -66,8 +66,8 @@ def cases(tier):
         for N in ([2] if tier == "quick" else [2, 3]):
             for order in ([0] if tier == "quick" else [0, 1]):
                 out.append(dict(kind="res", p=p, b=b, f=f, N=N, order=order))
-    WN = {2: [(0, 0), (2, 1), (1, 2)], 3: [(0, 0), (3, 1), (1, 2)], 4: [(0, 0), (4, 2), (1, 3)]}
-    for N in ([2, 3] if tier == "quick" else [2, 3, 4]):
+    WN = {2: [(0, 0), (2, 1), (1, 2)], 3: [(0, 0), (3, 1), (1, 2)], 4: [(0, 0), (4, 2), (1, 3)], 5: [(0, 0), (5, 2), (3, 5)]}
+    for N in ([2, 3] if tier == "quick" else [2, 3, 4, 5]):
         ws = list(itertools.product(range(N + 1), repeat=2))
         for rule in ("fill", "extend", "periodic"):
             for order in (0, 1):
